@@ -133,6 +133,18 @@ def run_scenario(sc, base, fast=True, mode='each', real_passes=None, on_test=Non
                     if user_before is not None:
                         with open(user, 'wb') as fh:       # undo, so that the run stays comparable
                             fh.write(user_before)
+        if sc.get('truncate') is not None and rc == 0 and 'cvise-sanity-' not in cwd:
+            # a test that "cleans up" the candidate it was given (in its own directory) before saying yes
+            tm_ = getattr(o, 'tm', None)
+            cur = str(getattr(tm_, 'current_test_case', '')) if tm_ is not None else ''
+            if cur:
+                try:
+                    with open(os.path.join(cwd, cur), 'rb') as fh:
+                        data_ = fh.read()
+                    with open(os.path.join(cwd, cur), 'wb') as fh:
+                        fh.write(data_[:sc['truncate']])
+                except OSError:
+                    pass
         if out == 'norun':
             if 'cvise-sanity-' in cwd and not sc.get('sanity_fault'):
                 return 1      # the fault is scripted for worker processes only (unless the scenario asks for it)
@@ -240,8 +252,12 @@ def run_scenario(sc, base, fast=True, mode='each', real_passes=None, on_test=Non
             o.disk0 = joint()
 
             def counts():
-                ls = os.listdir(work)
-                return (len([x for x in ls if x.startswith('cvise_bug_')]), len([x for x in ls if x.startswith('cvise_extra_')]))
+                # report directories anywhere below the working directory (they belong at its top level)
+                b = x = 0
+                for _dp, dns, _fns in os.walk(work):
+                    b += len([d_ for d_ in dns if d_.startswith('cvise_bug_')])
+                    x += len([d_ for d_ in dns if d_.startswith('cvise_extra_')])
+                return (b, x)
 
             def stat_of(p):
                 s = stats.stats.get(repr(p))
